@@ -566,6 +566,8 @@ fn main() {
     rep.oblige("window_handed_over_rotated", 1);
     rep.oblige("clone_conformance_scripts", 1);
     clone_conformance(&mut rep, cli.seed);
+    rep.oblige("channel_next_to_an_overflowing_channel", 1);
+    channel_isolation(&mut rep);
     rep.oblige("drift_dominated_checks", 0);
 
     // job list: (format, window, history, channels)
@@ -639,6 +641,53 @@ fn clone_conformance(rep: &mut Report, seed: u64) {
     }
     rep.eval(n);
     rep.hit_n("clone_conformance_scripts", n);
+}
+
+/// Channels are independent: while one channel of a stereo detector is fed finite samples whose
+/// squares overflow (its own reading is then inf / NaN - outside the statement), the OTHER channel
+/// must still read exactly what a mono detector fed the same values reads (same arithmetic, so
+/// bit for bit).
+fn channel_isolation(rep: &mut Report) {
+    let mut n_checked = 0u64;
+    for win in [1usize, 4, 16] {
+        for huge_in in [0usize, 1] {
+            let case = format!("kind=isolation;n={};huge_in={}", win, huge_in);
+            let r = vmon::catch(|| -> Result<u64, String> {
+                let mut st = Rms::<[f32; 2], Vec<[f32; 2]>>::new(ring_buffer::Fixed::from(vec![[0.0f32; 2]; win]));
+                let mut mono = Rms::<f32, Vec<f32>>::new(ring_buffer::Fixed::from(vec![0.0f32; win]));
+                let mut k = 0u64;
+                for i in 0..240u64 {
+                    if i == 150 {
+                        st.reset();
+                        mono.reset();
+                    }
+                    let x = ((i * 37 % 101) as f32 - 50.0) / 64.0;
+                    let h = if i % 17 == 5 { 1e30f32 } else if i % 29 == 3 { -3e38f32 } else { 0.25 };
+                    let fr = if huge_in == 0 { [h, x] } else { [x, h] };
+                    let (a, b) = (st.next(fr), mono.next(x));
+                    let got = a[1 - huge_in];
+                    if got.to_bits() != b.to_bits() {
+                        return Err(format!("window {}: step {}: the ordinary channel reads {:e} but a mono detector fed the same values reads {:e} (the other channel was fed {:e} at steps = 5 mod 17)", win, i, got, b, 1e30f32));
+                    }
+                    k += 1;
+                }
+                Ok(k)
+            });
+            match r {
+                Ok(Ok(k)) => n_checked += k,
+                Ok(Err(d)) => {
+                    rep.violation("rms|channel_disturbed_by_overflow_in_another_channel", d, case);
+                    return;
+                }
+                Err(m) => {
+                    rep.violation("rms|channel_isolation|panic", m, case);
+                    return;
+                }
+            }
+        }
+    }
+    rep.eval(n_checked);
+    rep.hit_n("channel_next_to_an_overflowing_channel", n_checked);
 }
 
 /// history lengths for window n
